@@ -1,5 +1,17 @@
 package main
 
+import (
+	"fmt"
+	"go/ast"
+	"go/parser"
+	"go/token"
+	"os/exec"
+	"path/filepath"
+	"runtime"
+	"strconv"
+	"strings"
+)
+
 func init() {
 	generators["C06_gen"] = func(o *out) {
 		// index into [Init Sign PublishAudit Write]
@@ -20,5 +32,631 @@ func init() {
 			{"lib/audit", "Info", "AppendTo"}, {"lib/audit", "Info", "Marshal"}, {"lib/audit", "", "New"}, {"cmdline/token", "", "signCmd"}} {
 			fingerprint(fn[0], fn[1], fn[2])
 		}
+		genAppendProgram(o)
 	}
+}
+
+// ---------------------------------------------------------------------------------------------------------------------
+// lib/audit Info.AppendTo as an I/O program: which writer every byte of the record goes through, how many
+// Write / WriteByte / WriteString / Flush calls there are and in which order, whether the line terminator is part of the
+// same buffer, which results are checked, the open(2) flags, and every branch on the record length. The statements are
+// translated one by one; a statement the translator does not understand is a broken tie (the definition is not emitted
+// and C06/Append.v stops compiling).
+
+const appendIR = `(* the I/O program of lib/audit Info.AppendTo (types are emitted here so that this file stands alone) *)
+Inductive apiece := PBlob | PByte (b : Z).                  (* a piece of a payload: the record buffer as it is now / a literal byte *)
+Inductive acmp := CLt | CLe | CGt | CGe | CEq | CNe.
+(* chk: what the code does with the error result: 0 ignored; 1 "!= nil" leads to a non-nil return; 2 "== nil" leads to a
+   non-nil return (inverted test); 3 "!= nil" leads to "return nil" (error swallowed, function stops) *)
+Inductive aop :=
+| AOpen (chk : Z)                                           (* os.OpenFile with the flags below *)
+| AMarshal (chk : Z)                                        (* blob, err := info.Marshal() *)
+| AAppend (lit : list Z)                                    (* blob = append(blob, lit...) *)
+| ANewWriter (w : Z) (under : Z) (size : Z)                 (* w := bufio.NewWriterSize(under, size); writer 0 is the file *)
+| AWrite (w : Z) (p : list apiece) (chk : Z)                (* ONE Write/WriteString/Fprintf call on writer w carrying p *)
+| AWriteByte (w : Z) (c : Z) (chk : Z)
+| AFlush (w : Z) (chk : Z)
+| AIf (c : acmp) (k : Z) (n : Z) (t e : list aop)           (* if len(blob)+k c n { t } else { e } *)
+| AReturn (ok : bool).
+`
+
+type apTr struct {
+	p       *pkgInfo
+	file    string
+	blob    string
+	writers map[string]int
+	nextW   int
+	errs    []string
+	flags   map[string]bool
+	opened  bool
+}
+
+func (t *apTr) fail(format string, a ...interface{}) {
+	t.errs = append(t.errs, fmt.Sprintf(format, a...))
+}
+
+func (t *apTr) src(n ast.Node) string {
+	return strings.Join(strings.Fields(printNode(t.p.fset, n)), " ")
+}
+
+type aopT struct {
+	kind    string // open marshal append neww write wbyte flush if ret
+	w       int
+	under   int
+	size    int64
+	payload []int // -1 = blob, else a literal byte
+	c       int64
+	chk     int
+	cmp     string
+	k, n    int64
+	t, e    []*aopT
+	ok      bool
+	binds   bool // the statement binds the error result to a variable a later `if err ...` can test
+}
+
+func c06CoqZ(v int64) string {
+	if v < 0 {
+		return fmt.Sprintf("(%d)", v)
+	}
+	return strconv.FormatInt(v, 10)
+}
+
+func coqPieces(p []int) string {
+	var s []string
+	for _, x := range p {
+		if x < 0 {
+			s = append(s, "PBlob")
+		} else {
+			s = append(s, fmt.Sprintf("PByte %d", x))
+		}
+	}
+	return "[" + strings.Join(s, "; ") + "]"
+}
+
+func coqOps(ops []*aopT, ind string) string {
+	var s []string
+	for _, op := range ops {
+		switch op.kind {
+		case "open":
+			s = append(s, fmt.Sprintf("AOpen %d", op.chk))
+		case "marshal":
+			s = append(s, fmt.Sprintf("AMarshal %d", op.chk))
+		case "append":
+			var b []string
+			for _, x := range op.payload {
+				b = append(b, strconv.Itoa(x))
+			}
+			s = append(s, "AAppend ["+strings.Join(b, "; ")+"]")
+		case "neww":
+			s = append(s, fmt.Sprintf("ANewWriter %d %d %s", op.w, op.under, c06CoqZ(op.size)))
+		case "write":
+			s = append(s, fmt.Sprintf("AWrite %d %s %d", op.w, coqPieces(op.payload), op.chk))
+		case "wbyte":
+			s = append(s, fmt.Sprintf("AWriteByte %d %s %d", op.w, c06CoqZ(op.c), op.chk))
+		case "flush":
+			s = append(s, fmt.Sprintf("AFlush %d %d", op.w, op.chk))
+		case "if":
+			s = append(s, fmt.Sprintf("AIf %s %s %s\n%s    %s\n%s    %s", op.cmp, c06CoqZ(op.k), c06CoqZ(op.n), ind, coqOps(op.t, ind+"    "), ind, coqOps(op.e, ind+"    ")))
+		case "ret":
+			s = append(s, fmt.Sprintf("AReturn %v", op.ok))
+		}
+	}
+	return "[" + strings.Join(s, ";\n"+ind+" ") + "]"
+}
+
+// payload of a Write-like call: the record buffer and literal bytes, in order
+func (t *apTr) payload(e ast.Expr) ([]int, bool) {
+	switch x := e.(type) {
+	case *ast.ParenExpr:
+		return t.payload(x.X)
+	case *ast.Ident:
+		if x.Name == t.blob && t.blob != "" {
+			return []int{-1}, true
+		}
+	case *ast.BasicLit:
+		switch x.Kind {
+		case token.STRING:
+			s, err := strconv.Unquote(x.Value)
+			if err == nil {
+				var r []int
+				for _, b := range []byte(s) {
+					r = append(r, int(b))
+				}
+				return r, true
+			}
+		case token.CHAR:
+			r, _, _, err := strconv.UnquoteChar(x.Value[1:len(x.Value)-1], '\'')
+			if err == nil && r < 256 {
+				return []int{int(r)}, true
+			}
+		case token.INT:
+			v, err := strconv.ParseInt(x.Value, 0, 64)
+			if err == nil && v >= 0 && v < 256 {
+				return []int{int(v)}, true
+			}
+		}
+	case *ast.BinaryExpr:
+		if x.Op == token.ADD {
+			a, ok1 := t.payload(x.X)
+			b, ok2 := t.payload(x.Y)
+			return append(a, b...), ok1 && ok2
+		}
+	case *ast.CompositeLit:
+		if t.src(x.Type) == "[]byte" {
+			var r []int
+			for _, el := range x.Elts {
+				p, ok := t.payload(el)
+				if !ok || len(p) != 1 || p[0] < 0 {
+					return nil, false
+				}
+				r = append(r, p[0])
+			}
+			return r, true
+		}
+	case *ast.SliceExpr:
+		if x.Low == nil && x.High == nil && x.Max == nil {
+			return t.payload(x.X)
+		}
+	case *ast.CallExpr:
+		fn := t.src(x.Fun)
+		if (fn == "string" || fn == "[]byte") && len(x.Args) == 1 {
+			return t.payload(x.Args[0])
+		}
+		if fn == "append" && len(x.Args) >= 1 {
+			r, ok := t.payload(x.Args[0])
+			for _, a := range x.Args[1:] {
+				p, ok2 := t.payload(a)
+				r, ok = append(r, p...), ok && ok2
+			}
+			return r, ok
+		}
+	}
+	return nil, false
+}
+
+func (t *apTr) writerOf(e ast.Expr) (int, bool) {
+	if id, ok := e.(*ast.Ident); ok {
+		if id.Name == t.file && t.file != "" {
+			return 0, true
+		}
+		if w, ok := t.writers[id.Name]; ok {
+			return w, true
+		}
+	}
+	return 0, false
+}
+
+// a call that moves bytes: returns the op (chk unset) or nil if the call is not one the translator knows
+func (t *apTr) ioCall(ce *ast.CallExpr) *aopT {
+	fn := t.src(ce.Fun)
+	if sel, ok := ce.Fun.(*ast.SelectorExpr); ok {
+		if w, ok := t.writerOf(sel.X); ok {
+			switch sel.Sel.Name {
+			case "Write", "WriteString":
+				if len(ce.Args) == 1 {
+					if p, ok := t.payload(ce.Args[0]); ok {
+						return &aopT{kind: "write", w: w, payload: p}
+					}
+				}
+			case "WriteByte":
+				if len(ce.Args) == 1 && w != 0 {
+					if p, ok := t.payload(ce.Args[0]); ok && len(p) == 1 && p[0] >= 0 {
+						return &aopT{kind: "wbyte", w: w, c: int64(p[0])}
+					}
+				}
+			case "Flush":
+				if len(ce.Args) == 0 && w != 0 {
+					return &aopT{kind: "flush", w: w}
+				}
+			}
+			t.fail("call on the audit file / its writer that is not translated: %s", t.src(ce))
+			return nil
+		}
+	}
+	switch fn {
+	case "io.WriteString":
+		if len(ce.Args) == 2 {
+			if w, ok := t.writerOf(ce.Args[0]); ok {
+				if p, ok := t.payload(ce.Args[1]); ok {
+					return &aopT{kind: "write", w: w, payload: p}
+				}
+			}
+		}
+	case "fmt.Fprint", "fmt.Fprintln":
+		if len(ce.Args) == 2 {
+			if w, ok := t.writerOf(ce.Args[0]); ok {
+				if p, ok := t.payload(ce.Args[1]); ok {
+					if fn == "fmt.Fprintln" {
+						p = append(p, 10)
+					}
+					return &aopT{kind: "write", w: w, payload: p}
+				}
+			}
+		}
+	case "fmt.Fprintf":
+		if len(ce.Args) >= 2 {
+			w, ok := t.writerOf(ce.Args[0])
+			lit, ok2 := ce.Args[1].(*ast.BasicLit)
+			if ok && ok2 && lit.Kind == token.STRING {
+				f, err := strconv.Unquote(lit.Value)
+				args := ce.Args[2:]
+				var p []int
+				good := err == nil
+				for i := 0; good && i < len(f); i++ {
+					if f[i] != '%' {
+						p = append(p, int(f[i]))
+						continue
+					}
+					i++
+					switch {
+					case i < len(f) && f[i] == '%':
+						p = append(p, '%')
+					case i < len(f) && (f[i] == 's' || f[i] == 'v') && len(args) > 0:
+						q, ok := t.payload(args[0])
+						args = args[1:]
+						p, good = append(p, q...), ok
+					default:
+						good = false
+					}
+				}
+				if good && len(args) == 0 {
+					return &aopT{kind: "write", w: w, payload: p}
+				}
+			}
+		}
+	default:
+		return nil
+	}
+	t.fail("write to the audit file that is not translated: %s", t.src(ce))
+	return nil
+}
+
+var cmpNames = map[token.Token]string{token.LSS: "CLt", token.LEQ: "CLe", token.GTR: "CGt", token.GEQ: "CGe", token.EQL: "CEq", token.NEQ: "CNe"}
+
+// `err != nil` / `err == nil` (any variable whose name ends in err) -> 1 / 2
+func errCond(e ast.Expr) int {
+	b, ok := e.(*ast.BinaryExpr)
+	if !ok {
+		return 0
+	}
+	x, ok1 := b.X.(*ast.Ident)
+	y, ok2 := b.Y.(*ast.Ident)
+	if !ok1 || !ok2 || y.Name != "nil" || !strings.HasSuffix(strings.ToLower(x.Name), "err") {
+		return 0
+	}
+	switch b.Op {
+	case token.NEQ:
+		return 1
+	case token.EQL:
+		return 2
+	}
+	return 0
+}
+
+// what the body of an `if err ...` does: 1 returns a non-nil error, 3 returns nil, 0 neither (falls through)
+func (t *apTr) bodyOutcome(b *ast.BlockStmt) int {
+	for _, s := range b.List {
+		if r, ok := s.(*ast.ReturnStmt); ok {
+			if len(r.Results) == 1 && t.src(r.Results[0]) == "nil" {
+				return 3
+			}
+			return 1
+		}
+	}
+	return 0
+}
+
+func bindsErr(lhs []ast.Expr) bool {
+	for _, l := range lhs {
+		if id, ok := l.(*ast.Ident); ok && strings.HasSuffix(strings.ToLower(id.Name), "err") {
+			return true
+		}
+	}
+	return false
+}
+
+// chk value from the test and what its body does
+func chkOf(cond, outcome int) (int, bool) {
+	switch {
+	case outcome == 0:
+		return 0, true // the error is looked at but the function carries on
+	case cond == 1 && outcome == 1:
+		return 1, true
+	case cond == 2 && outcome == 1:
+		return 2, true
+	case cond == 1 && outcome == 3:
+		return 3, true
+	}
+	return 0, false
+}
+
+func (t *apTr) lenExpr(e ast.Expr) (int64, bool) {
+	switch x := e.(type) {
+	case *ast.ParenExpr:
+		return t.lenExpr(x.X)
+	case *ast.CallExpr:
+		if t.src(x.Fun) == "len" && len(x.Args) == 1 && t.src(x.Args[0]) == t.blob && t.blob != "" {
+			return 0, true
+		}
+	case *ast.BinaryExpr:
+		if x.Op == token.ADD || x.Op == token.SUB {
+			k, ok := t.lenExpr(x.X)
+			c, err := evalConst("lib/audit", x.Y, 0)
+			if ok && err == nil && !c.isFloat {
+				if x.Op == token.SUB {
+					return k - c.i, true
+				}
+				return k + c.i, true
+			}
+		}
+	}
+	return 0, false
+}
+
+func (t *apTr) openFlags(e ast.Expr) {
+	switch x := e.(type) {
+	case *ast.BinaryExpr:
+		if x.Op == token.OR {
+			t.openFlags(x.X)
+			t.openFlags(x.Y)
+			return
+		}
+	case *ast.ParenExpr:
+		t.openFlags(x.X)
+		return
+	case *ast.SelectorExpr:
+		s := t.src(x)
+		if strings.HasPrefix(s, "os.O_") || strings.HasPrefix(s, "syscall.O_") || strings.HasPrefix(s, "unix.O_") {
+			t.flags[s[strings.Index(s, ".")+1:]] = true
+			return
+		}
+	}
+	t.fail("open flags not understood: %s", t.src(e))
+}
+
+func (t *apTr) stmts(list []ast.Stmt) []*aopT {
+	var ops []*aopT
+	last := func() *aopT {
+		if len(ops) == 0 {
+			return nil
+		}
+		return ops[len(ops)-1]
+	}
+	for _, s := range list {
+		switch x := s.(type) {
+		case *ast.DeferStmt:
+			// deferred Close (plain or inside a closure): not part of the write path; the function is fingerprinted
+			if !strings.Contains(t.src(x), ".Close()") {
+				t.fail("deferred statement not understood: %s", t.src(x))
+			}
+		case *ast.AssignStmt:
+			if len(x.Rhs) != 1 {
+				t.fail("statement not translated: %s", t.src(x))
+				continue
+			}
+			ce, isCall := x.Rhs[0].(*ast.CallExpr)
+			if !isCall {
+				t.fail("statement not translated: %s", t.src(x))
+				continue
+			}
+			fn := t.src(ce.Fun)
+			switch {
+			case fn == "os.OpenFile" && len(ce.Args) == 3 && len(x.Lhs) == 2:
+				t.file, t.opened = t.src(x.Lhs[0]), true
+				t.openFlags(ce.Args[1])
+				ops = append(ops, &aopT{kind: "open", binds: bindsErr(x.Lhs)})
+			case fn == "os.Create" && len(x.Lhs) == 2:
+				t.file, t.opened = t.src(x.Lhs[0]), true
+				t.flags["O_RDWR"], t.flags["O_CREATE"], t.flags["O_TRUNC"] = true, true, true
+				ops = append(ops, &aopT{kind: "open", binds: bindsErr(x.Lhs)})
+			case strings.HasSuffix(fn, ".Marshal") && len(ce.Args) == 0 && len(x.Lhs) == 2:
+				t.blob = t.src(x.Lhs[0])
+				ops = append(ops, &aopT{kind: "marshal", binds: bindsErr(x.Lhs)})
+			case fn == "append" && len(x.Lhs) == 1 && t.src(x.Lhs[0]) == t.blob && len(ce.Args) >= 2 && t.src(ce.Args[0]) == t.blob:
+				var lit []int
+				good := true
+				for _, a := range ce.Args[1:] {
+					p, ok := t.payload(a)
+					for _, b := range p {
+						good = good && b >= 0
+					}
+					lit, good = append(lit, p...), good && ok
+				}
+				if !good || ce.Ellipsis != token.NoPos && len(ce.Args) != 2 {
+					t.fail("append to the record buffer not translated: %s", t.src(x))
+					continue
+				}
+				ops = append(ops, &aopT{kind: "append", payload: lit})
+			case (fn == "bufio.NewWriter" && len(ce.Args) == 1 || fn == "bufio.NewWriterSize" && len(ce.Args) == 2) && len(x.Lhs) == 1:
+				under, ok := t.writerOf(ce.Args[0])
+				if !ok {
+					t.fail("buffered writer over something that is not the audit file: %s", t.src(x))
+					continue
+				}
+				size := int64(0) // 0 = bufio's default
+				if len(ce.Args) == 2 {
+					c, err := evalConst("lib/audit", ce.Args[1], 0)
+					if err != nil || c.isFloat {
+						t.fail("buffer size is not a constant: %s", t.src(x))
+						continue
+					}
+					size = c.i
+				}
+				t.nextW++
+				t.writers[t.src(x.Lhs[0])] = t.nextW
+				ops = append(ops, &aopT{kind: "neww", w: t.nextW, under: under, size: size})
+			default:
+				if op := t.ioCall(ce); op != nil {
+					op.binds = bindsErr(x.Lhs)
+					ops = append(ops, op)
+				} else {
+					t.fail("statement not translated: %s", t.src(x))
+				}
+			}
+		case *ast.ExprStmt:
+			ce, ok := x.X.(*ast.CallExpr)
+			if !ok {
+				t.fail("statement not translated: %s", t.src(x))
+				continue
+			}
+			if op := t.ioCall(ce); op != nil {
+				ops = append(ops, op)
+			} else if len(t.errs) == 0 {
+				t.fail("statement not translated: %s", t.src(x))
+			}
+		case *ast.IfStmt:
+			// (a) if <call>; err ... { ... }   (b) if err ... { ... } testing the previous statement   (c) if len(blob) ...
+			if x.Init != nil {
+				as, ok := x.Init.(*ast.AssignStmt)
+				var op *aopT
+				if ok && len(as.Rhs) == 1 {
+					if ce, ok := as.Rhs[0].(*ast.CallExpr); ok {
+						op = t.ioCall(ce)
+					}
+				}
+				c := errCond(x.Cond)
+				if op == nil || c == 0 || x.Else != nil || !bindsErr(as.Lhs) {
+					t.fail("if statement not translated: %s", t.src(x))
+					continue
+				}
+				chk, ok := chkOf(c, t.bodyOutcome(x.Body))
+				if !ok {
+					t.fail("error test not translated: %s", t.src(x))
+					continue
+				}
+				op.chk = chk
+				ops = append(ops, op)
+				continue
+			}
+			if c := errCond(x.Cond); c != 0 {
+				l := last()
+				if l == nil || !l.binds || x.Else != nil {
+					t.fail("error test without a preceding call: %s", t.src(x))
+					continue
+				}
+				chk, ok := chkOf(c, t.bodyOutcome(x.Body))
+				if !ok {
+					t.fail("error test not translated: %s", t.src(x))
+					continue
+				}
+				l.chk, l.binds = chk, false
+				continue
+			}
+			if b, ok := x.Cond.(*ast.BinaryExpr); ok {
+				k, ok1 := t.lenExpr(b.X)
+				n, err := evalConst("lib/audit", b.Y, 0)
+				cmp, ok2 := cmpNames[b.Op]
+				if ok1 && ok2 && err == nil && !n.isFloat {
+					op := &aopT{kind: "if", cmp: cmp, k: k, n: n.i, t: t.stmts(x.Body.List)}
+					switch e := x.Else.(type) {
+					case nil:
+					case *ast.BlockStmt:
+						op.e = t.stmts(e.List)
+					default:
+						op.e = t.stmts([]ast.Stmt{e})
+					}
+					ops = append(ops, op)
+					continue
+				}
+			}
+			t.fail("if statement not translated: %s", t.src(x))
+		case *ast.ReturnStmt:
+			if len(x.Results) != 1 {
+				t.fail("return not translated: %s", t.src(x))
+				continue
+			}
+			if t.src(x.Results[0]) == "nil" {
+				ops = append(ops, &aopT{kind: "ret", ok: true})
+				continue
+			}
+			if ce, ok := x.Results[0].(*ast.CallExpr); ok {
+				if op := t.ioCall(ce); op != nil { // return w.Flush()
+					op.chk = 1
+					ops = append(ops, op, &aopT{kind: "ret", ok: true})
+					continue
+				}
+				if len(t.errs) > 0 {
+					continue
+				}
+			}
+			ops = append(ops, &aopT{kind: "ret", ok: false})
+		default:
+			t.fail("statement not translated: %s", t.src(s))
+		}
+	}
+	return ops
+}
+
+// a constant of the Go standard library the harness is built with (bufio's default buffer, the runtime's write cap)
+func gorootConst(rel, name string) (int64, error) {
+	root := runtime.GOROOT()
+	if out, err := exec.Command("go", "env", "GOROOT").Output(); err == nil && strings.TrimSpace(string(out)) != "" {
+		root = strings.TrimSpace(string(out))
+	}
+	fset := token.NewFileSet()
+	f, err := parser.ParseFile(fset, filepath.Join(root, "src", rel), nil, 0)
+	if err != nil {
+		return 0, err
+	}
+	for _, d := range f.Decls {
+		gd, ok := d.(*ast.GenDecl)
+		if !ok || gd.Tok != token.CONST {
+			continue
+		}
+		for _, s := range gd.Specs {
+			vs := s.(*ast.ValueSpec)
+			for i, n := range vs.Names {
+				if n.Name == name && len(vs.Values) > i {
+					c, err := evalConst("", vs.Values[i], 0)
+					if err != nil || c.isFloat {
+						return 0, fmt.Errorf("constant %s of %s is not an integer literal expression", name, rel)
+					}
+					return c.i, nil
+				}
+			}
+		}
+	}
+	return 0, fmt.Errorf("constant %s not found in %s", name, rel)
+}
+
+func genAppendProgram(o *out) {
+	for _, c := range [][3]string{{"bufio/bufio.go", "defaultBufSize", "bufio_default_size"}, {"internal/poll/fd_unix.go", "maxRW", "os_max_rw"}} {
+		v, err := gorootConst(c[0], c[1])
+		if err != nil {
+			o.brokenDef(c[2], err.Error())
+			continue
+		}
+		o.f("Definition %s : Z := %d. (* GOROOT/src/%s : %s *)\n", c[2], v, c[0], c[1])
+	}
+	o.f("\n%s\n", appendIR)
+	p, fd := findFunc("lib/audit", "Info", "AppendTo")
+	if fd == nil {
+		o.brokenDef("append_prog", "function lib/audit:Info.AppendTo not found")
+		return
+	}
+	t := &apTr{p: p, writers: map[string]int{}, flags: map[string]bool{}}
+	ops := t.stmts(fd.Body.List)
+	if !t.opened && len(t.errs) == 0 {
+		t.fail("no os.OpenFile in AppendTo")
+	}
+	if len(t.errs) > 0 {
+		o.brokenDef("append_prog", strings.Join(t.errs, " | "))
+		return
+	}
+	var fl []string
+	for _, k := range []string{"O_APPEND", "O_CREATE", "O_WRONLY", "O_RDWR", "O_TRUNC", "O_EXCL", "O_SYNC"} {
+		if t.flags[k] {
+			fl = append(fl, k)
+		}
+		delete(t.flags, k)
+	}
+	for k := range t.flags {
+		o.brokenDef("append_open_append", "open flag not modelled: "+k)
+		return
+	}
+	o.f("(* lib/audit:Info.AppendTo : os.OpenFile flags %s *)\n", strings.Join(fl, "|"))
+	has := func(k string) bool { return strings.Contains("|"+strings.Join(fl, "|")+"|", "|"+k+"|") }
+	o.f("Definition append_open_append : bool := %v.\nDefinition append_open_trunc : bool := %v.\nDefinition append_open_create : bool := %v.\nDefinition append_open_writable : bool := %v.\n",
+		has("O_APPEND"), has("O_TRUNC"), has("O_CREATE"), has("O_WRONLY") || has("O_RDWR"))
+	o.f("(* lib/audit:Info.AppendTo, statement by statement *)\nDefinition append_prog : list aop :=\n  %s.\n", coqOps(ops, "  "))
 }
